@@ -19,7 +19,7 @@ RULE = ("case 'rec' = (frame of 1..64 bytes with standard or extended id, 1..4 i
         "records (identifier, format, length) and the recorded scaling (Scapy scaling/offset, Canard factor/offset, FIBEX "
         "COMPU-RATIONAL-COEFFS, the CSV factor column; factors and offsets with up to 12 significant digits). In 40 % of the cases the "
         "matrix holds a second frame with signals of the same names at the same start bits (one bit wide, factor 7, value tables) and "
-        "30 % of the matrices define the launch attributes GenMsgSendType / GenMsgDelayTime (the frame has a value for none, one or both); the matrix was exported once before with the signals of the frame somewhere else. Frames longer than 8 bytes are flagged as CAN FD. signals of the frame under test carry value tables. The multiplexer of a multiplexed frame is a signal like the others: in half of the multiplexed frames it has a factor/offset of its own, in 15 % it is signed, in 40 % it has a value table; its recorded scaling is compared like that of every other signal. 45 % of the multiplexed frames hold one signal name in two or three multiplexer groups, each occurrence with its own start bit, width, byte order, sign and scaling; the records are read per occurrence: the Scapy ConditionalField lambda and the Lua `if muxer ...` condition are evaluated at the occurrence's multiplexer value, FIBEX instances are taken from the PDU switched in by that SWITCH-CODE, CSV rows by their 'Mode <v>:' text, Canard entries of one name as a set of positions. 30 % of the frames have a namesake: a second frame of the matrix with the same NAME (before or after the frame under test, own identifier, format and length; the FIBEX writer gives the later one a suffix, in 30 % of the matrices with another frame the suffixed name is taken) whose signals carry names of the frame under test with a place, width, byte order, sign and scaling of their own, plain or in the same multiplexer groups. That matrix is written by the FIBEX writer only (the other writers have no provision for equal frame names) and the file is read as a tool reads it: from the FRAME-TRIGGERING with the identifier along FRAME-REF, PDU-REF (SWITCHED-/STATIC-PDU-INSTANCE), SIGNAL-REF and CODING-REF, no name of the matrix being used; an id carried by several elements of the referenced kind is resolved once to the first and once to the last of them (cases with 'resolve'), and both readings are judged like every other record, the scaling included. Non-trivial = distinct case with a signal wider than one bit.")
+        "30 % of the matrices define the launch attributes GenMsgSendType / GenMsgDelayTime (the frame has a value for none, one or both); the matrix was exported once before with the signals of the frame somewhere else. Frames longer than 8 bytes are flagged as CAN FD. signals of the frame under test carry value tables. The multiplexer of a multiplexed frame is a signal like the others: in half of the multiplexed frames it has a factor/offset of its own, in 15 % it is signed, in 40 % it has a value table; its recorded scaling is compared like that of every other signal. 45 % of the multiplexed frames hold one signal name in two or three multiplexer groups, each occurrence with its own start bit, width, byte order, sign and scaling; the records are read per occurrence: the Scapy ConditionalField lambda and the Lua `if muxer ...` condition are evaluated at the occurrence's multiplexer value, FIBEX instances are taken from the PDU switched in by that SWITCH-CODE, CSV rows by their 'Mode <v>:' text, Canard entries of one name as a set of positions. 30 % of the frames have a namesake: a second frame of the matrix with the same NAME (before or after the frame under test, own identifier, format and length; the FIBEX writer gives the later one a suffix, in 30 % of the matrices with another frame the suffixed name is taken) whose signals carry names of the frame under test with a place, width, byte order, sign and scaling of their own, plain or in the same multiplexer groups. That matrix is written by the FIBEX writer only (the other writers have no provision for equal frame names) and the file is read as a tool reads it: from the FRAME-TRIGGERING with the identifier along FRAME-REF, PDU-REF (SWITCHED-/STATIC-PDU-INSTANCE), SIGNAL-REF and CODING-REF, no name of the matrix being used; an id carried by several elements of the referenced kind is resolved once to the first and once to the last of them (cases with 'resolve'), and both readings are judged like every other record, the scaling included. The Lua dissector is read as a program (lua_run): the statements of add_frame_info executed for the frame's identifier are followed in order with Lua's scoping; a bitfield() is recorded with what its buffer holds at that point (the payload parameter, the copy built by do_reverse_pdu from this call's payload and length, or something else), a statement using a name without a value ends the run (the records after it are missing), a condition on such a name is false. Non-trivial = distinct case with a signal wider than one bit.")
 PARTIAL = ["the target tools are not installed: their reading conventions are the trusted Spec/Exports.lean",
            "FIBEX dynamic/static segment positions of multiplexed PDUs are not compared; compared are SIGNAL-INSTANCE and SWITCH "
            "position/byte order, CODING bit length and base data type (signedness), frame length and identifier",
@@ -73,6 +73,150 @@ def _lua_condition(text):
         except Exception:  # noqa
             return False
     return active
+
+
+_LUA_KEYWORDS = {"and", "break", "do", "else", "elseif", "end", "false", "for", "function", "if", "in", "local", "nil", "not", "or", "repeat",
+                 "return", "then", "true", "until", "while"}
+_LUA_HOST = {"ByteArray", "ProtoField", "Proto", "base", "Field", "DissectorTable", "Dissector", "string", "math", "table", "bit", "bit32",
+             "tostring", "tonumber", "ipairs", "pairs", "print", "type"}
+
+
+def _lua_names(expr):
+    """the names an expression evaluates (not field / method names after '.' or ':', not text inside string literals)"""
+    expr = re.sub(r'"[^"\n]*"|\'[^\'\n]*\'', '""', expr)
+    return [n for n in re.findall(r"(?<![\w.:])[A-Za-z_]\w*", expr) if n not in _LUA_KEYWORDS]
+
+
+def lua_run(text, arbid):
+    """The dissector read as a program: the statements of add_frame_info that are executed for a packet with identifier `arbid`, in the
+    order of execution, as text of the same shape - with every buffer a bitfield() is taken from replaced by what it holds at that
+    point ('pdu' = the payload parameter, 'reversed_pdu' = a value built by the file's do_reverse_pdu from the payload and length
+    parameters of this call, 'other_<name>' = anything else).  A name holds a value from the statement that binds it to the end of the block
+    the binding is in (`local`), or of the function (a global assigned on the path of this identifier); file-level functions and
+    variables and the parameters are bound throughout.  A statement that uses a name with no value (nil in Lua) as buffer, function,
+    receiver or argument raises an error in Lua: the dissection of the frame ends there, nothing after it is executed.  A condition on a name
+    with no value is false (its `then` part is not executed, its `else` part is)."""
+    m = re.search(r"^function add_frame_info\(([^)]*)\)[ \t]*\n(.*?)^end[ \t]*$", text, re.S | re.M)
+    if not m:
+        return ""
+    params = [x.strip() for x in m.group(1).split(",")]
+    if len(params) < 3:
+        return ""
+    p_id, p_pdu, p_len = params[0], params[1], params[2]
+    outside = text[:m.start()] + "\n" + text[m.end():]
+    glob = {}
+    for n in re.findall(r"^function ([A-Za-z_]\w*)\(", outside, re.M):
+        glob[n] = "function"
+    for n in re.findall(r"^([A-Za-z_]\w*)[ \t]*=(?!=)", outside, re.M):
+        glob[n] = "value"
+    for n in re.findall(r"^local ([A-Za-z_]\w*)[ \t]*=(?!=)", text[:m.start()], re.M):
+        glob[n] = "value"
+    for n in _LUA_HOST:
+        glob.setdefault(n, "host")
+    for n in params:
+        glob[n] = "value"
+    glob[p_pdu] = "pdu"
+    # scopes: [bindings, executed for sure?]
+    scopes = [[glob, True], [{}, True]]
+    out = []
+    skip = 0            # depth of blocks that are not executed
+    shown = False       # the head of the outermost of them is part of the text
+
+    def lookup(n):
+        for sc, _ in reversed(scopes):
+            if n in sc:
+                return sc[n]
+        return None
+
+    def meaning_of(rhs):
+        rhs = rhs.strip()
+        mm = re.match(r"^([A-Za-z_]\w*)\(\s*([A-Za-z_]\w*)\s*,\s*([A-Za-z_]\w*)\s*\)$", rhs)
+        if mm and mm.group(1) == "do_reverse_pdu" and lookup(mm.group(1)) == "function" and mm.group(2) == p_pdu and mm.group(3) == p_len \
+                and lookup(p_pdu) == "pdu":
+            return "reversed_pdu"
+        if rhs == p_pdu and lookup(p_pdu) == "pdu":
+            return "pdu"
+        return "value"
+
+    def rewrite(line):
+        def buf(mo):
+            v = lookup(mo.group(1))
+            return (v if v in ("pdu", "reversed_pdu") else "other_" + mo.group(1)) + ":bitfield("
+        return re.sub(r"(?<![\w.:])([A-Za-z_]\w*):bitfield\(", buf, line)
+
+    for line in m.group(2).split("\n"):
+        code = re.sub(r"--.*$", "", line)
+        st = code.strip()
+        if not st:
+            continue
+        opens = re.match(r"^(if|while)\b(.*)\b(then|do)$", st) or re.match(r"^(for)\b(.*)\b(do)$", st)
+        if skip:
+            if opens:
+                skip += 1
+            elif st == "end":
+                skip -= 1
+                if skip == 0 and shown:
+                    out.append(line)
+            elif st == "else" and skip == 1:
+                skip = 0
+                scopes.append([{}, False])
+                out.append(line)
+            continue
+        if opens:
+            cond = opens.group(2)
+            mc = re.match(r"^\s*%s\s*==\s*(\d+)\s*$" % re.escape(p_id), cond)
+            if mc and opens.group(1) == "if":
+                if int(mc.group(1)) == arbid:
+                    scopes.append([{}, scopes[-1][1]])
+                    out.append(line)
+                else:
+                    skip, shown = 1, False
+                continue
+            if any(lookup(n) is None for n in _lua_names(cond)):
+                if opens.group(1) == "if":
+                    out.append(line.replace(cond, " false "))
+                    skip, shown = 1, True
+                    continue
+                return "\n".join(out)           # (a loop over nil bounds raises)
+            scopes.append([{}, False])
+            out.append(rewrite(line))
+            continue
+        if st == "else":
+            scopes.pop()
+            scopes.append([{}, False])
+            out.append(line)
+            continue
+        if st == "end":
+            if len(scopes) <= 2:
+                break
+            scopes.pop()
+            out.append(line)
+            continue
+        ml = re.match(r"^local\s+([A-Za-z_]\w*(?:\s*,\s*[A-Za-z_]\w*)*)\s*(?:=(?!=)\s*(.*))?$", st)
+        ma = re.match(r"^([A-Za-z_]\w*)\s*=(?!=)\s*(.*)$", st)
+        rhs = ml.group(2) if ml else ma.group(2) if ma else st
+        if rhs is not None and any(lookup(n) is None for n in _lua_names(rhs)):
+            return "\n".join(out)               # error raised by Lua: the dissection ends here
+        if ml:
+            names = [x.strip() for x in ml.group(1).split(",")]
+            for n in names:
+                scopes[-1][0][n] = "declared" if rhs is None else "value"
+            if rhs is not None and len(names) == 1:
+                scopes[-1][0][names[0]] = meaning_of(rhs)
+        elif ma:
+            n = ma.group(1)
+            target = None
+            for sc, _ in reversed(scopes[1:]):
+                if n in sc:
+                    target = sc
+                    break
+            if target is None:
+                # a global: it has the value on the rest of this path; past the end of a block that need not be executed it may not
+                # (every block around a block that is executed for sure is executed for sure)
+                target = scopes[1][0] if scopes[-1][1] else scopes[-1][0]
+            target[n] = meaning_of(rhs)
+        out.append(rewrite(line))
+    return "\n".join(out) + "\n"
 
 
 def namesake_id(arbid, ext, next_, taken):
@@ -309,7 +453,9 @@ def records(fd, arbid, ext):
     m = re.search(r"bind_layers\(SignalHeader, Fr, identifier  = (0x[0-9a-f]+)(, flags = \"extended\")?\)", txt)
     out["frame"]["scapy"] = [int(m.group(1), 16), m.group(2) is not None] if m else None
     # wireshark: the statements of the frame's branch; those inside `if <condition on muxer> then ... end` are in force under the condition
-    txt = export(db, "wireshark").decode()
+    # The Lua text is read as a program (lua_run): what is taken here are the statements executed for a packet with this identifier, each
+    # bitfield() with the buffer it is taken from at that point of the run (a read from a name that has no value there ends the run)
+    txt = lua_run(export(db, "wireshark").decode(), arbid)
     b0 = txt.find("local my_frame_tree = framesubtree:add(Fr,")
     b0 = txt.rfind("if can_id ==", 0, b0) if b0 >= 0 else -1
     txt = txt[b0:txt.find("\n  end\n", b0)] if b0 >= 0 else ""
